@@ -228,6 +228,7 @@ def evaluate(ctx, binr, names, avail, table, idx, cases, record=True):
 
 def run(ctx):
     lean_check(ctx, "I18nVerif.Theorems.C15", "C15_")
+    lean_check(ctx, "I18nVerif.Theorems.C15Feature", "C15_")
     st = setup(ctx)
     if st is None:
         finish_broken(ctx, "harness does not build; nothing could be run")
